@@ -19,7 +19,8 @@ def handlers : List (String × (List String → Option String)) :=
     ("init-table", InitTable.handleTable), ("init-untable", InitTable.handleUntable), ("init-apply", InitTable.handleApply), ("init-save", InitTable.handleSave),
     ("init-accept", Init.handleAccept), ("init-rhs", Init.handleRhs), ("charac", Init.handleCharac), ("init-saved", Init.handleSaved),
     ("relink", Protocol.Graph.handle),
-    ("par-eval", Params.handleEval), ("prog-cov", Params.handleProgCov), ("par-order", Params.handleOrder) ]
+    ("par-eval", Params.handleEval), ("prog-cov", Params.handleProgCov), ("par-order", Params.handleOrder),
+    ("c09-gate", Scenario.handleGate), ("c09-evalone", Scenario.handleEvalOne), ("c09-scen", Scenario.handleScen) ]
 
 /-- One request per line: `<kind> <args…>`; one canonical reply per line. -/
 def dispatch (line : String) : String :=
